@@ -350,7 +350,7 @@ func edgeShape(r *rand.Rand, key uint64) iset {
 		return normalize(sp)
 	}
 	L := uint64(1 + r.Intn(300))
-	switch r.Intn(26) {
+	switch r.Intn(28) {
 	case 0:
 		return mk(65535-L, 65535) // run ending at the upper edge
 	case 1:
@@ -426,6 +426,37 @@ func edgeShape(r *rand.Rand, key uint64) iset {
 			v += 2 + uint64(r.Intn(40))
 		}
 		return mk(pairs...)
+	case 26, 27: // a bitmap-kind chunk (scattered background of > 4096 values) with saturated 64-bit words: blocks of 1..3 full
+		// words, each followed (and sometimes preceded) by a hole - word-at-a-time fast paths of select / rank / neighbour
+		// queries and of the iterators meet "all ones" next to "bit 0 clear"
+		step := uint64(2 + r.Intn(3))
+		var sp []span
+		for v := uint64(r.Intn(3)); v < 65536; v += step {
+			if step > 2 && r.Intn(3) == 0 {
+				continue
+			}
+			sp = append(sp, span{base + v, base + v})
+		}
+		s := normalize(sp)
+		var blocks, holes iset
+		for i, n := 0, 1+r.Intn(6); i < n; i++ {
+			w := uint64(r.Intn(1024))
+			if i == 0 && r.Intn(3) == 0 {
+				w = pick(r, []uint64{0, 1022, 1023})
+			}
+			nw := uint64(1 + r.Intn(3))
+			if w+nw > 1024 {
+				nw = 1024 - w
+			}
+			blocks = blocks.union(iset{span{base + 64*w, base + 64*(w+nw) - 1}})
+			if w+nw < 1024 {
+				holes = holes.union(iset{span{base + 64*(w+nw), base + 64*(w+nw) + uint64(r.Intn(3))}})
+			}
+			if w > 0 && r.Intn(2) == 0 {
+				holes = holes.union(iset{span{base + 64*w - 1 - uint64(r.Intn(2)), base + 64*w - 1}})
+			}
+		}
+		return s.union(blocks).minus(holes.minus(blocks))
 	default:
 		return chunkShape(r, key)
 	}
